@@ -10,7 +10,8 @@ os.makedirs(dst, exist_ok=True)
 for f in os.listdir(src):
     if f.endswith('.diff') or f.endswith('_test.go') or f == 'meta.json':
         shutil.copy(os.path.join(src, f), os.path.join(dst, f if not f.endswith('_test.go') else f + '.txt'))
-subprocess.run(['git', '-C', '/repo', 'apply', os.path.join(src, 'patch.diff')], check=True)
+if subprocess.run(["git", "-C", "/repo", "apply", os.path.join(src, "patch.diff")]).returncode != 0:
+    subprocess.run(["git", "-C", "/repo", "apply", "-C1", os.path.join(src, "patch.diff")], check=True)
 try:
     out = subprocess.run(['/verif/bin/tmverif', '-prop', 'all', '-no-evidence'], capture_output=True, text=True).stdout
 finally:
